@@ -141,12 +141,15 @@ def sread (given : Option Name) (force : Bool) (chunks : List (List Nat)) : Stri
     encCps (oneShot cpyInner given force chunks.flatten)
 
 def swrite (given : Option Name) (chunks : List (List Nat)) : String :=
-  let rec go (s : ESt) (cs : List (List Nat)) (acc : List String) : ESt × List String :=
+  let rec go (s : ESt) (cs : List (List Nat)) (acc : List String) : Option ESt × List String :=
     match cs with
-    | [] => (s, acc.reverse)
-    | c :: cs => let r := wstep cpyInnerEnc s c; go r.1 cs (encCps r.2 :: acc)
+    | [] => (some s, acc.reverse)
+    | c :: cs => match estepE cpyInnerEnc s c false with
+      | none => (none, ("RAISE" :: acc).reverse)
+      | some r => go r.1 cs (encCps r.2 :: acc)
   let r := go (.waiting given []) chunks []
-  " ".intercalate r.2 ++ " | " ++ (match r.1 with | .waiting _ _ => "W" | .encoding _ _ => "E") ++ " | " ++
+  " ".intercalate r.2 ++ " | " ++
+    (match r.1 with | none => "X" | some (.waiting _ _) => "W" | some (.encoding _ _) => "E") ++ " | " ++
     encCps (encodeOneShot cpyInnerEnc given chunks.flatten)
 
 /-- `rdec given force n chunk…`: the first `n` chunks (then `decode(b"", True)`), `reset()`, the other chunks
